@@ -56,15 +56,15 @@ TEXT = {
 
 PROVED = {
     "C01": "the extracted priority / drop-list / type / *of / site / error facts equal the documented ones (vm_compute on the record re-read from the source); the code-shaped rule queue (pop(0), remove) evaluates exactly the rules of the declarative skip-set reading, for every duplicate-free queue and arbitrary handlers; verdict iff no errors. PARTIAL: equality with the reference interpreter on all inputs is the differential run, the Spec being the same model at documented constants.",
-    "C02": "the extracted pipeline is the documented step order with its guards; a failing coercer keeps the value, files its error at the field's path and stops the chain, and so does a failing rename handler (the stop test looks for the error the chain itself files); renaming a field to its own name changes nothing; an unhashable new name from a rename handler is a failed renaming at the field's path; unknown-field rules never touch schema fields; items of the wrong length are not normalized.",
+    "C02": "the extracted pipeline is the documented step order with its guards; a failing coercer keeps the value, files its error at the field's path and stops the chain, and so does a failing rename handler (the stop test looks for the error the chain itself files); renaming a field to its own name changes nothing; an unhashable new name from a rename handler is a failed renaming at the field's path; an unknown list is normalized member by member against the `schema` of the rules for unknown fields; unknown-field rules never touch schema fields; items of the wrong length are not normalized.",
     "C03": "every leaf rule handler returns normally for EVERY value (any nesting, unhashable members) given a constraint of the declared shape (`contains` and a mapping of `allowed` values for ANY constraint since the repairs e210946 / 2752c56); filing an error succeeds whenever the field's resolved rule set holds the rule. PARTIAL: the recursive skeleton and normalization are decided by the oracle and the diffed exception behaviour.",
     "C04": "a rejected assignment keeps schema and allow_unknown in force; all entry points decide alike (expand -> validate -> commit, extracted shape); unknown rule / unknown type / normalization rule inside *of / dangling field reference are rejected at the rule set that holds them; a rejected rules set rejects every rules set holding it at a recursion position of the documented grammar (items, keysrules, valuesrules, *of definitions, allow_unknown rule sets, list- and dict-schemas), hence by induction on the nesting a corruption at ANY depth of the inline structure rejects the schema (corrupted_is_rejected). PARTIAL: positions behind registry references, and that the real meta-schema is this grammar, are decided by the differential run and the corruption oracle.",
     "C05": "every write site extracted from the normalization functions is at depth 0 of an owned copy or re-binds the nested member to a copy first, hence no run of the site machine writes into a caller- or schema-owned object; a depth-1 site without the copy is refuted.",
     "C06": "verdict iff no errors; validated() is None iff the verdict is False (always_return_document variant too); normalized() is None iff normalization errors; validate and normalized share processed document and normalization errors. PARTIAL: the composition law is decided by the oracle.",
     "C07": "the attributes reset by the extracted validate() prologue and __init_processing cover the per-call read sets, and any processing function that reads per-call attributes only through them yields, after ANY history, what a fresh instance yields.",
     "C08": "with a type- and class-aware key (extracted) and equal keys implying equal validity, every submission history equals its cold run and the cold run is plain validity (the key is the frozen structure itself since df705fe: no assumption on hash collisions); the context part is REFUTED on the faithful model (bulk and *of definitions share a tag) - the recorded known finding.",
-    "C09": "the *of handler files its error exactly when the extracted comparison holds for the number of definitions that validate individually in the stated child context, with that count, the total and the failing definitions' errors; the comparisons are the documented ones; None skips them; a `readonly` rule inside a definition is checked whether or not the document was normalized (the definition's validator does not inherit the flag). LIMIT: the child context is the implementation's (allow_unknown=True for the definition's validator), so the theorem shares the recorded finding on containers inside definitions; the recount oracle judges it as the property states it.",
-    "C10": "child configuration inherits every option and both registries; the root document is the outermost one at every depth; at each of the five sites the filed children are exactly the child validator's errors; bubbling edits schema paths only; update is forwarded; by induction over the whole model every recorded error strictly extends the validator's document path. PARTIAL: equality with standalone validation is decided by the oracle.",
+    "C09": "the *of handler files its error exactly when the extracted comparison holds for the number of definitions that validate individually in the stated child context, with that count, the total and the failing definitions' errors; the comparisons are the documented ones; None skips them; a `readonly` rule inside a definition is checked whether or not the document was normalized (the definition's validator does not inherit the flag). The recorded finding is exhibited as a witness on the model (C09_refuted_unknown_fields_inside_definition_containers). LIMIT: the child context is the implementation's (allow_unknown=True for the definition's validator), so the theorem shares the recorded finding on containers inside definitions; the recount oracle judges it as the property states it.",
+    "C10": "child configuration inherits every option and both registries; the root document is the outermost one at every depth; at each of the five sites the filed children are exactly the child validator's errors; bubbling edits schema paths only; update is forwarded; by induction over the whole model every recorded error strictly extends the validator's document path. PARTIAL: equality with standalone validation is decided by the oracle; with normalization on it is REFUTED for read-only fields on the faithful model (C10_refuted_readonly_in_a_sub_document_with_normalization, the recorded finding).",
     "C11": "for ARBITRARY error lists the tree returns at every path exactly the errors with that path incl. nested children, holds nothing else, has a node exactly for prefixes of stored paths, is empty iff no errors, and look-ups by definition agree; for validator outputs the tree content is the flattening.",
     "C12": "document paths extend the validator's path; code and rule come from one definition; value and constraint are the field's value and the resolved rule's constraint; children iff group definition. PARTIAL: schema-path resolution is decided by the oracle.",
     "C13": "add() deep-copies first (extracted shape), rendering is a function of the error list and leaves it untouched, one insertion adds one message, a leaf error adds it under its document path only, and for error forests of ANY nesting the number of rendered messages is: one per non-group error, one per *of error plus what its definitions' errors contribute, for a group error what its children contribute (render_count). PARTIAL: WHERE nested messages are placed is decided by the node-by-node diff against the real handler.",
